@@ -49,7 +49,7 @@ class QueueingCounterContext(AbstractHashQueueContext):
         # anything that's past the current event interval
         post_e = list(filter(lambda x: e <= x[0], ts_list))
         # remember the last entry of the overlap section as it impacts the count for a new e
-        last_overlap = mid_se[-1][1] if len(mid_se) else 0
+        last_overlap = mid_se[-1][1] if len(mid_se) else last_ready
 
         if len(mid_se) == 0:
             new_list.append((s, last_ready + 1))
